@@ -59,6 +59,10 @@ CYCLES = [
     [{"$repeat": 2}, {"$merge": []}],
     {"a": {"$encode": "json", "$merge": "a"}},
     {"a": {"$decode": "json", "$value": "{\"$merge\": \"a\"}"}},
+    {"a": '$"{a}{a}"'},
+    {"a": '$"{b}{b}"', "b": '$"{a}"'},
+    {"a": '$"{a}-{b}"', "b": "x"},
+    {"a": '$"{nope}{b}"', "b": "x"},
 ]
 
 
